@@ -260,6 +260,46 @@ def ir_json(run, src_text, name, ndebug=True, extra=()):
     return outp
 
 
+def ir_json_file(run, path, flags, name):
+    """a unit of the repository itself (compile-database entry) -> IR JSON; None when clang cannot compile it."""
+    os.makedirs(CACHE, exist_ok=True)
+    with open(path, "rb") as f:
+        body = f.read()
+    key = _sha("irfile", run.header_hash(), body, " ".join(flags).replace(run.root, "@ROOT"), _tool_hash(YIR))
+    outp = os.path.join(CACHE, "%s.%s.ir.json" % (name, key))
+    if os.path.exists(outp):
+        return outp
+    if os.path.exists(outp + ".fail"):
+        return None
+    wd = os.path.join(OUT, "tmp", "%s.%s" % (name, key))
+    os.makedirs(wd, exist_ok=True)
+    ll = os.path.join(wd, "w.ll")
+    r = sh([CXX] + list(flags) + ["-w", "-O0", "-Xclang", "-disable-O0-optnone", "-fno-discard-value-names", "-g", "-S", "-emit-llvm", path, "-o", ll])
+    if r.returncode != 0:
+        with open(outp + ".fail", "w") as f:
+            f.write(r.stderr[-2000:])
+        return None
+    llm = os.path.join(wd, "wm.ll")
+    r = sh(["opt-14", "-passes=function(mem2reg)", ll, "-S", "-o", llm])
+    if r.returncode != 0:
+        return None
+    tmp = outp + ".tmp%d" % os.getpid()
+    r = sh([YIR, llm, tmp])
+    if r.returncode != 0:
+        return None
+    os.replace(tmp, outp)
+    for q in (ll, llm):
+        try:
+            os.remove(q)
+        except OSError:
+            pass
+    try:
+        os.rmdir(wd)
+    except OSError:
+        pass
+    return outp
+
+
 def ast_json(run, src_text, name, ndebug=True, funcs="", extra=(), cfg="", refs=False, self_root=False):
     """witness source text -> path of AST JSON produced by the yast plugin.
     funcs: '|'-separated substrings; only functions whose qualified name contains one are dumped
